@@ -157,6 +157,13 @@ func session1(seed int64, i int) (ivs []interval, frames []rig.Frame, logged boo
 	} else {
 		l = f.Links[0]
 	}
+	if variant == "stop" && i%4 >= 2 {
+		// an application logout callback that is slower than the close timeout (200 ms): the timeout ends the Stop while
+		// the logout event is still being delivered to the callbacks
+		l.S.OnChangeState(utils.EventLogout, func() bool { time.Sleep(400 * time.Millisecond); return true })
+		l.S.OnChangeState(utils.EventLogout, func() bool { return true })
+		desc += " slow-logout-callback"
+	}
 	// the session is published to the other goroutines through a channel
 	sessCh := make(chan *session.Session, 16)
 	for k := 0; k < 16; k++ {
